@@ -17,7 +17,7 @@ use std::time::Duration;
 
 use crate::rng::Rng;
 
-const WATCHDOG: Duration = Duration::from_millis(250);
+const WATCHDOG: Duration = Duration::from_millis(1500);
 
 #[derive(Clone, Copy, Debug, PartialEq, Eq)]
 pub enum Policy {
@@ -43,6 +43,9 @@ impl Policy {
 }
 
 struct St {
+    /// all simulated threads have arrived and the first turn has been handed out
+    started: bool,
+    entered: usize,
     current: Option<usize>,
     parked: Vec<bool>,
     finished: Vec<bool>,
@@ -148,6 +151,8 @@ impl Sched {
         }
         Arc::new(Sched {
             st: Mutex::new(St {
+                started: false,
+                entered: 0,
                 current: None,
                 parked: vec![false; n],
                 finished: vec![false; n],
@@ -182,7 +187,7 @@ impl Sched {
                 st.parked[i] = false;
                 return;
             }
-            if to.timed_out() {
+            if to.timed_out() && st.started {
                 if st.steps == seen_steps && st.current == seen_cur {
                     // the running thread made no progress: presume it is blocked on a lock
                     // held by a parked thread and release someone else
@@ -232,6 +237,7 @@ impl Sched {
     fn enter(&self, i: usize) {
         let mut st = self.st.lock().unwrap();
         st.parked[i] = true;
+        st.entered += 1;
         self.cv.notify_all();
         self.wait_for_turn(st, i);
     }
@@ -269,11 +275,12 @@ impl Sched {
             }
             // start: wait until every thread is parked, then hand out the first turn
             let mut st = self.st.lock().unwrap();
-            while st.parked.iter().filter(|&&p| p).count() < n {
+            while st.entered < n {
                 st = self.cv.wait(st).unwrap();
             }
             let first = st.choose(None);
             st.current = first;
+            st.started = true;
             self.cv.notify_all();
             drop(st);
         });
